@@ -481,6 +481,63 @@ def r12_8(prog: Program, rep: Report):
             n += 1
             rep.violated("R12.8", q, f.loc, f"mutates a memoised result in place ({sorted(set(bad))[0]}): every later consumer of that cache entry sees the change", detail="cached-mutation")
     rep.held("R12.8", "typelib", "", f"{len(prog.functions)} functions scanned for in-place mutation of memoised results ({n} found)", detail="scan")
+    # closures that outlive the call that made them (returned or stored) must not write the variables they capture:
+    # such a write is state carried from one call of the closure to the next
+    import ast as _ast
+
+    nclos = 0
+    for q, f in sorted(prog.functions.items()):
+        if isinstance(f.node, _ast.Lambda):
+            continue
+        inner_defs = [n for n in f.node.body if isinstance(n, _ast.FunctionDef)] + [n for st in _ast.walk(f.node) if isinstance(st, (_ast.If, _ast.Try, _ast.With, _ast.For, _ast.While)) for n in getattr(st, "body", []) + getattr(st, "orelse", []) if isinstance(n, _ast.FunctionDef)]
+        if not inner_defs:
+            continue
+        outer_locals = set(f.params)
+        for n in _ast.walk(f.node):
+            if isinstance(n, _ast.Name) and isinstance(n.ctx, _ast.Store):
+                outer_locals.add(n.id)
+        escaping = set()
+        for n in _ast.walk(f.node):
+            if isinstance(n, _ast.Return) and n.value is not None:
+                escaping |= {x.id for x in _ast.walk(n.value) if isinstance(x, _ast.Name)}
+            if isinstance(n, _ast.Assign) and any(isinstance(tg, (_ast.Attribute, _ast.Subscript)) for tg in n.targets):
+                escaping |= {x.id for x in _ast.walk(n.value) if isinstance(x, _ast.Name)}
+        for d in inner_defs:
+            if d.name not in escaping:
+                continue
+            nclos += 1
+            own = {a.arg for a in d.args.posonlyargs + d.args.args + d.args.kwonlyargs}
+            if d.args.vararg:
+                own.add(d.args.vararg.arg)
+            if d.args.kwarg:
+                own.add(d.args.kwarg.arg)
+            nonlocals = set()
+            for n in _ast.walk(d):
+                if isinstance(n, _ast.Nonlocal):
+                    nonlocals |= set(n.names)
+                if isinstance(n, _ast.Name) and isinstance(n.ctx, _ast.Store):
+                    own.add(n.id)
+                if isinstance(n, _ast.comprehension):
+                    own |= {x.id for x in _ast.walk(n.target) if isinstance(x, _ast.Name)}
+            own -= nonlocals
+            captured = (outer_locals - own) | nonlocals
+            writes = []
+            for n in _ast.walk(d):
+                if isinstance(n, _ast.Call) and isinstance(n.func, _ast.Attribute) and isinstance(n.func.value, _ast.Name) and n.func.value.id in captured and n.func.attr in E.MUTATORS:
+                    writes.append(f"{n.func.value.id}.{n.func.attr}()")
+                if isinstance(n, (_ast.Assign, _ast.AugAssign, _ast.AnnAssign)):
+                    tgs = n.targets if isinstance(n, _ast.Assign) else [n.target]
+                    for tg in tgs:
+                        if isinstance(tg, _ast.Subscript) and isinstance(tg.value, _ast.Name) and tg.value.id in captured:
+                            writes.append(f"{tg.value.id}[…] = …")
+                        if isinstance(tg, _ast.Name) and tg.id in nonlocals:
+                            writes.append(f"nonlocal {tg.id} = …")
+                if isinstance(n, _ast.Delete):
+                    for tg in n.targets:
+                        if isinstance(tg, _ast.Subscript) and isinstance(tg.value, _ast.Name) and tg.value.id in captured:
+                            writes.append(f"del {tg.value.id}[…]")
+            rep.check(not writes, "R12.8", f"{q}.<locals>.{d.name}", f"{f.module.relpath}:{d.lineno}", "the escaping closure does not write the variables it captures", f"the closure outlives {f.name}() and writes captured state ({(sorted(set(writes)) or [''])[0]}): what an earlier call stored decides what a later call returns (the closure is cached per type)", detail="closure-state")
+    rep.count("escaping_closures", nclos)
     # routine attributes are written only by constructors and the two proxy latches
     for d in ("marshal", "unmarshal"):
         for c in C.routine_classes(prog, d):
@@ -499,7 +556,7 @@ def run(prog: Program, rep: Report, tier: str):
     rep.rule("R12.5", "memoised decoders receive hashable carriers (shared with R14.3)", floor=1)
     rep.rule("R12.6", "no mutable defaults; no module-level container mutated from a function (slotted guard excepted)", floor=1)
     rep.rule("R12.7", "no unmarshal/serdes path mutates its input", floor=25)
-    rep.rule("R12.8", "memoised results and routine state are never mutated after construction", floor=35)
+    rep.rule("R12.8", "memoised results, routine state and state captured by escaping closures are never written after construction", floor=40)
     ct = call_time_functions(prog)
     r12_1(prog, rep, ct)
     r12_2(prog, rep)
